@@ -106,3 +106,19 @@ prop("C14", [("R31", grid.r31_memo)], "R31 memo invalidation (more rules pending
 prop("C15", [("R19", grid.r19_taxis)], "R19 time-axis discipline (more rules pending).")
 prop("C20", [("R14", misc.r14_fresh)], "R14 provider freshness (more rules pending).")
 prop("C16", [("R35b", misc.r35b_specside), ("R41", misc.r41_masktruth)], "R35b/R41 (more rules pending).")
+
+from .rules import buffer  # noqa: E402
+
+prop("C11", [("R27", buffer.r27_interp), ("R26", buffer.r26_buffer), ("R21", buffer.r21_evict), ("R04", buffer.r04_cmp), ("R22", spill.r22_pack)], "pending text")
+prop("C09", [("R21", buffer.r21_evict)], "pending text")
+prop("C08", [("R17", buffer.r17_nearest), ("R04", buffer.r04_cmp), ("R19", grid.r19_taxis)], "pending text")
+PROPS["C20"]["rules"].append(("R39", buffer.r39_static))
+
+from .rules import link  # noqa: E402
+
+PROPS["C09"]["rules"].insert(0, ("R20", link.r20_target))
+PROPS["C08"]["rules"] += [("R17p", link.r17_pushpath), ("R18", link.r18_pullpath)]
+PROPS["C20"]["rules"] += [("R40", link.r40_cbtime), ("R03", sched.r03_r09_step)]
+prop("C13", [("R30", link.r30_delay), ("R02", sched.r02_sched_agree)], "pending text")
+prop("C02", [("R05", sched.r05_select), ("R02", sched.r02_sched_agree), ("R03", sched.r03_r09_step)], "pending text")
+prop("C04", [("R09", sched.r09_structure), ("R09s", sched.r03_r09_step), ("R10", life.r10_stall), ("R10b", life.r10b_mustconnect), ("R02", sched.r02_sched_agree)], "pending text")
